@@ -66,10 +66,18 @@ Definition cds_eqb (a b : cds) : bool := (cdays a =? cdays b) && (cms a =? cms b
 Definition cds_add (t : cds) (td_days td_seconds td_microseconds : Z) : res cds :=
   let ms := cms t + (td_microseconds / 1000 + td_seconds * 1000) in
   do (ms, days) <-
-    (if ms >? MS_PER_DAY then
+    (if ms >=? MS_PER_DAY then
        let days := cdays t + 1 in
        if days >? 2 ^ 16 - 1 then Err EOverflow else Ok (ms - MS_PER_DAY, days)
      else Ok (ms, cdays t));
   let days := days + td_days in
   if days >? 2 ^ 16 - 1 then Err EOverflow else
   Ok {| cdays := days; cms := ms |}.
+
+(* from_datetime on an aware datetime dt, abstracted to the integer attributes of
+   delta = dt.astimezone(utc) - UNIX_EPOCH: delta.days = ud, delta.seconds = sod,
+   delta.microseconds = us (CPython normalises 0 <= sod < 86400, 0 <= us < 10^6). *)
+Definition cds_from_datetime (ud sod us : Z) : cds :=
+  let unix_days := ud in
+  let ms_of_day := sod * 1000 + us / 1000 in
+  {| cdays := convert_unix_days_to_ccsds_days unix_days; cms := ms_of_day |}.
